@@ -565,3 +565,35 @@ package catalog
 //@   ensures [C11] old(has(c.UserTypes.data, (has(d.namedParameters, "Name") ? d.namedParameters["Name"] : ""))) ==> ret != nil && ret.index == d.keywordCoords.begin && unchanged()
 //@   unclaimed #requires@Read the body coordinates of a user type are not constrained here (C14 owns the lexeme bounds)
 //@   unclaimed #requires@Set the schema compilation between the duplicate check and the insertion has no frame contract
+
+// ---------------------------------------------------------------- the same method on the same path twice (C11)
+// httpIdOf / rpcIdOf: the interaction id computed from a directive (path from the directive and its URL ancestors,
+// method from its kind) as a function of the directive in the entry state.
+//@ specfn httpIdOf(d directive.Directive) HTTPInteractionID
+//@ specfn rpcIdOf(d directive.Directive) JsonRpcInteractionId
+//@ func newHTTPInteractionID
+//@   trusted
+//@   pure
+//@   ghostensures isnil(ret1) ==> same(ret0, httpIdOf(d))
+//@ func newJsonRpcInteractionId
+//@   trusted
+//@   pure
+//@   ghostensures isnil(ret1) ==> same(ret0, rpcIdOf(d))
+
+//@ func (*Catalog).AddHTTPMethod
+//@   tag C11 C01
+//@   requires c != nil && DirWFv(d) && c.Interactions != nil && RepInvInteractions(c.Interactions) && c.Interactions.mx == 0
+//@   ensures [C11] old(has(c.Interactions.data, box(HTTPInteractionID, httpIdOf(d)))) ==> ret != nil && unchanged()
+//@   loop 1 invariant 0 - 1 <= rangeindex && rangeindex <= rangelen - 1 && !old(has(c.Interactions.data, box(HTTPInteractionID, httpIdOf(d))))
+//@   unclaimed #requires@tagNames tag resolution is proved on its own (C19); its preconditions on the tag tables are not restated here
+//@   unclaimed #requires@Set see above
+//@   unclaimed #requires@String see above
+
+//@ func (*Catalog).AddJsonRpcMethod
+//@   tag C11 C01
+//@   requires c != nil && DirWFv(d) && c.Interactions != nil && RepInvInteractions(c.Interactions) && c.Interactions.mx == 0
+//@   ensures [C11] old(has(c.Interactions.data, box(JsonRpcInteractionId, rpcIdOf(d)))) ==> ret != nil && unchanged()
+//@   loop 1 invariant 0 - 1 <= rangeindex && rangeindex <= rangelen - 1 && !old(has(c.Interactions.data, box(JsonRpcInteractionId, rpcIdOf(d))))
+//@   unclaimed #requires@tagNames see AddHTTPMethod
+//@   unclaimed #requires@Set see AddHTTPMethod
+//@   unclaimed #requires@String see AddHTTPMethod
